@@ -1,5 +1,7 @@
 import SockModel.Model.PoolLemmas
 import SockModel.Spec.C10
+import SockModel.Generated.Funcs
+import SockModel.Basic.TieTactic
 /-!
 # C10  BufferPool accounting and recycling, including the sockets' receive pools
 
@@ -260,3 +262,44 @@ example : (rxRun 8 { pool := create 1 8, held := [] } [.rx .nothing, .rx .exn, .
   decide
 
 end SockModel.Pool
+
+/-! ## Source-derived tie (DESIGN.md §0.7)
+
+`SockModel.Gen.*` (Generated/Funcs.lean) is regenerated on every run by tools/cxx2lean.py from the clang AST of
+the CURRENT /repo/src: BufferPool::BufferPool (m_maxCount) and the decision structure of BufferPool::Get.
+Each theorem below states that the generated function and the hand-written model function agree for ALL
+arguments; a change of the C++ function changes the generated definition and the theorem stops checking. -/
+namespace SockModel.Props.C10
+open SockModel SockModel.Pool
+
+theorem tie_create_maxM1 (n reserve : Nat) :
+    Gen.BufferPool_m_maxCount n = ((create n reserve).maxM1 : Int) := by
+  simp only [Gen.BufferPool_m_maxCount, create, sizeMax]
+  omega
+
+/-- the decision structure of the model's `get` -/
+def modelGetChoice (maxM1 : Nat) (idleEmpty : Bool) (busySize : Nat) : Gen.GetChoice :=
+  if idleEmpty then (if busySize ≤ maxM1 then .allocateNew else .throwOutOfBuffers) else .reuseIdleTop true
+
+/-- ... and that it is: each choice determines the result of the model's `get` completely -/
+theorem model_get_choice (p : Pool) :
+    match modelGetChoice p.maxM1 p.idle.isEmpty p.busy.length with
+    | .allocateNew =>
+      Pool.get p = .ok p.next { p with busy := p.busy ++ [p.next], next := p.next + 1,
+                                       len := upd p.len p.next 0, cap := upd p.cap p.next 0 }
+    | .throwOutOfBuffers => Pool.get p = .outOfBuffers
+    | .reuseIdleTop clear =>
+      ∃ b rest, p.idle = b :: rest ∧
+        Pool.get p = .ok b { p with idle := rest, busy := p.busy ++ [b],
+                                    len := if clear then upd p.len b 0 else p.len } := by
+  unfold modelGetChoice Pool.get
+  cases hi : p.idle with
+  | nil => by_cases hb : p.busy.length ≤ p.maxM1 <;> simp [hb]
+  | cons b rest => exact ⟨b, rest, by simp⟩
+
+/-- `BufferPool::Get` as compiled from the current source takes the same path as the model's `get` for every
+`m_maxCount`, `m_idle.empty()` and `m_busy.size()` -/
+theorem tie_get (maxM1 : Nat) (idleEmpty : Bool) (busySize : Nat) :
+    Gen.BufferPool_Get maxM1 idleEmpty busySize = modelGetChoice maxM1 idleEmpty busySize := by
+  cases idleEmpty <;> simp only [Gen.BufferPool_Get, modelGetChoice] <;> tie_choice
+end SockModel.Props.C10
